@@ -29,7 +29,8 @@ ASSUMPTIONS = [
 ]
 REPLAY_ATTEMPTS = 2
 
-EVENTS = ["connect", "connect", "user", "user", "user", "pass", "quit", "drop", "drop_mid", "idle", "garbage", "error", "pwd"]
+EVENTS = ["connect", "connect", "user", "user", "user", "pass", "quit", "drop", "drop_mid", "idle", "garbage", "error", "pwd", "quit_reset",
+          "cmd_reset"]
 EVENT = st.tuples(st.sampled_from(EVENTS), st.integers(0, 255), st.integers(0, 255))
 CASE = st.tuples(st.sampled_from([None, 1, 2, 3]), st.sampled_from([None, 1, 2]), st.sampled_from([None, 1, 2]),
                  st.sampled_from([None, 1]), st.sampled_from([None, 30]), st.lists(EVENT, min_size=5, max_size=30),
@@ -145,6 +146,25 @@ async def _run(loop, case, info):
                 s["dead"] = True
                 info["abnormal"] = True
                 hist.append(("drop", k))
+            elif ev in ("quit_reset", "cmd_reset"):
+                # the peer sends a command and resets the connection n loop iterations later (before / while the reply is written)
+                raw.send("QUIT" if ev == "quit_reset" else ["PWD", "USER a", "PASS pa", "SYST"][y % 4])
+                left = [y % 10]
+                fired = asyncio.Event()
+
+                def tick():
+                    if left[0] <= 0:
+                        raw.w.transport.abort()
+                        fired.set()
+                        return
+                    left[0] -= 1
+                    loop.call_soon(tick)
+
+                loop.call_soon(tick)
+                await fired.wait()
+                s["dead"] = True
+                info["abnormal"] = True
+                hist.append((ev, k, y % 10))
             elif ev == "drop_mid":
                 part = [b"USER a", b"USER b\r\n", b"PASS pa\r\n", b"PA", b"USER a\r\nUSER b\r\nQUIT\r\n", b"QUIT\r\n"][y % 6]
                 raw.send(part)
